@@ -113,6 +113,10 @@ func VerifC02IndexCrash() {
 	if done == 0 {
 		verifAssert("crash-before-anything-is-old", verifHSameSlice(surv, oldPtrs))
 	}
+	if done == 1 && torn == 0 && len(newPtrs) >= len(oldPtrs) {
+		// the file only grows: cutting it to its new length must not drop a single committed pointer
+		verifAssert("crash-after-truncate-keeps-committed-pointers", len(surv) >= len(oldPtrs) && verifHSameSlice(surv[:len(oldPtrs)], oldPtrs))
+	}
 	if done == len(ops) {
 		verifAssert("crash-after-everything-is-new", verifHSameSlice(surv, newPtrs))
 	}
